@@ -43,17 +43,19 @@ type ParserDef struct {
 
 func never(Cfg) bool { return false }
 
+// caller arrays: for even n the slice is cut from a larger backing array
+// (len < cap), as callers that re-slice a pool do
 func mkHdrs(n int) []sipsp.Hdr {
 	if n < 0 {
 		return nil
 	}
-	return make([]sipsp.Hdr, n)
+	return make([]sipsp.Hdr, n, n+(1-n%2)*5)
 }
 func mkContacts(n int) []sipsp.PFromBody {
 	if n < 0 {
 		return nil
 	}
-	return make([]sipsp.PFromBody, n)
+	return make([]sipsp.PFromBody, n, n+(1-n%2)*3)
 }
 
 // ---- whole message ----
@@ -461,13 +463,13 @@ var Parsers = []*ParserDef{
 	{Name: "ParseAllURIParams", Group: "tok", Stateful: true, EndInput: endInputFlag,
 		New: func(c Cfg) Obj {
 			o := &uriParamsObj{flags: c.Flags}
-			o.l.Init(make([]sipsp.URIParam, c.ParamCap))
+			o.l.Init(make([]sipsp.URIParam, c.ParamCap, c.ParamCap+(1-c.ParamCap%2)*3))
 			return o
 		}},
 	{Name: "ParseAllURIHdrs", Group: "tok", Stateful: true, EndInput: endInputFlag,
 		New: func(c Cfg) Obj {
 			o := &uriHdrsObj{flags: c.Flags}
-			o.l.Init(make([]sipsp.URIHdr, c.ParamCap))
+			o.l.Init(make([]sipsp.URIHdr, c.ParamCap, c.ParamCap+(1-c.ParamCap%2)*3))
 			return o
 		}},
 	{Name: "SkipQuoted", Group: "quoted", Stateful: false, EndInput: never,
